@@ -2,12 +2,15 @@ package props
 
 import (
 	"encoding/json"
+
 	"fmt"
 	"math"
 	"math/rand"
 	"reflect"
 	"strings"
 	"unsafe"
+
+	bexpr "github.com/hashicorp/go-bexpr"
 
 	"verif/internal/mon"
 	"verif/internal/refsem"
@@ -208,6 +211,10 @@ func c09Run(c *mon.Ctx, idx int) {
 		c.Sample(map[string]any{"zoo_entry": z.Name, "go_type": fmt.Sprintf("%T", z.Val), "expressions_each": len(c09ExprCache), "holders": "map, struct, *map, []interface{}, nested map, map[string]T, []T, root"})
 		return
 	}
+	if idx < nz+c09NStress {
+		c09Stress(c, idx-nz)
+		return
+	}
 	// random part: the C01 workload (including the reference's unspecified
 	// cases) under the totality oracle only
 	r := c.RNG(idx)
@@ -240,12 +247,144 @@ func c09Run(c *mon.Ctx, idx int) {
 	}
 }
 
+const c09NStress = 9
+
+type C09Base struct{ A int }
+type c09Embedded struct {
+	C09Base
+	*c09Struct
+	X int
+}
+
+// c09Stress: large and deep data, long paths, deep quantifier nesting, and
+// embedded structs; outcomes known by construction are asserted as well.
+func c09Stress(c *mon.Ctx, k int) {
+	big := tierN(c.Tier, 20000, 300000)
+	expect := func(text string, datum interface{}, want string, label string) {
+		c.Evals(1)
+		c.Risk("stress " + label)
+		ev, err, pan, _ := createEval(text, bexprBudget())
+		if pan != "" || err != nil {
+			c.Violation("C09 stress create-failed "+label, "a stress expression was rejected", map[string]any{"expression": clip(text, 200), "error": fmt.Sprint(err) + pan})
+			return
+		}
+		o := evaluate(ev, datum)
+		switch {
+		case o.Class() == "P":
+			c.Violation("C09 panic stress "+label+" site="+o.Site, "Evaluate panicked on a large / deep datum", map[string]any{"expression": clip(text, 200), "panic": o.Panic})
+		case o.Class() == "E!":
+			c.Violation("C09 error-with-true stress "+label, "error returned together with true", map[string]any{"expression": clip(text, 200)})
+		case want != "" && o.Class3() != want:
+			c.Violation(fmt.Sprintf("C09 stress-outcome %s got=%s want=%s", label, o.Class3(), want), "outcome on a large / deep datum differs from what the construction implies", map[string]any{"expression": clip(text, 200), "observed": o.String()})
+		}
+		c.Count("stress:" + label)
+	}
+	switch k {
+	case 0: // large typed list
+		l := make([]int, big)
+		for i := range l {
+			l[i] = i
+		}
+		d := map[string]interface{}{"l": l}
+		expect(fmt.Sprintf("%d in l", big-1), d, "T", "big-list")
+		expect("-1 in l", d, "F", "big-list")
+		expect("any l as x { x == -1 }", d, "F", "big-list")
+		expect(fmt.Sprintf("all l as i, x { x != %d }", big-1), d, "F", "big-list")
+		expect(fmt.Sprintf("l.%d == %d", big-1, big-1), d, "T", "big-list")
+		expect(fmt.Sprintf("l.%d == 1", big), d, "E", "big-list")
+	case 1: // large interface list with a nil and a string at the end
+		l := make([]interface{}, big)
+		for i := range l {
+			l[i] = float64(i)
+		}
+		l[big/2] = nil
+		l[big-1] = "last"
+		d := map[string]interface{}{"l": l}
+		expect("last in l", d, "T", "big-iface-list")
+		expect("nothere in l", d, "F", "big-iface-list")
+		expect("any l as x { x == `last` }", d, "E", "big-iface-list") // floats cannot be read from "last"
+	case 2: // large map
+		m := make(map[string]interface{}, big/4)
+		for i := 0; i < big/4; i++ {
+			m[fmt.Sprintf("k%07d", i)] = i
+		}
+		d := map[string]interface{}{"m": m}
+		expect("k0000001 in m", d, "T", "big-map")
+		expect("any m as k, v { v == -1 }", d, "F", "big-map")
+		expect(fmt.Sprintf("all m as k, v { v != %d }", big/4-1), d, "F", "big-map")
+		expect("m.nokey == 1", d, "F", "big-map")
+		expect("m is not empty", d, "T", "big-map")
+	case 3: // long string
+		s := strings.Repeat("a", 5*big) + "z"
+		d := map[string]interface{}{"s": s}
+		expect("s matches `^a+z$`", d, "T", "long-string")
+		expect("s contains `az`", d, "T", "long-string")
+		expect("zz in s", d, "F", "long-string")
+		expect("s == `a`", d, "F", "long-string")
+	case 4: // deep nesting of maps, long dotted and pointer paths
+		depth := tierN(c.Tier, 300, 3000)
+		var cur interface{} = "leaf"
+		for i := 0; i < depth; i++ {
+			cur = map[string]interface{}{"n": cur}
+		}
+		path := strings.Repeat("n.", depth-1) + "n"
+		expect(path+" == leaf", cur, "T", "deep-maps")
+		expect("\"/"+strings.ReplaceAll(path, ".", "/")+"\" == leaf", cur, "T", "deep-maps")
+		expect(path+".n == leaf", cur, "E", "deep-maps")
+		expect(path+".zz is empty", cur, "E", "deep-maps")
+	case 5: // deep nesting of lists and pointers
+		depth := tierN(c.Tier, 300, 3000)
+		var cur interface{} = 7
+		for i := 0; i < depth; i++ {
+			if i%2 == 0 {
+				cur = []interface{}{cur}
+			} else {
+				x := cur
+				cur = &x
+			}
+		}
+		expect("l"+strings.Repeat(".0", depth/2)+" == 7", map[string]interface{}{"l": cur}, "", "deep-lists-and-pointers")
+	case 6: // nested quantifiers, depth 6
+		var cur interface{} = []interface{}{1, 2, 3}
+		for i := 0; i < 5; i++ {
+			cur = []interface{}{cur, cur}
+		}
+		d := map[string]interface{}{"l": cur}
+		expect("any l as a { any a as b { any b as c { any c as d { any d as e { any e as f { f == 3 } } } } } }", d, "T", "nested-quantifiers")
+		expect("all l as a { all a as b { all b as c { all c as d { all d as e { all e as f { f != 4 } } } } } }", d, "T", "nested-quantifiers")
+		expect("all l as a { all a as b { all b as c { all c as d { all d as e { any e as i, f { i == 3 and f == 1 } } } } } }", d, "F", "nested-quantifiers")
+	case 7: // embedded structs: fields are not promoted
+		d := map[string]interface{}{"v": c09Embedded{C09Base: C09Base{A: 1}, X: 2}, "p": &c09Embedded{C09Base: C09Base{A: 3}, c09Struct: &c09Struct{A: 4}}}
+		expect("v.C09Base.A == 1", d, "T", "embedded")
+		expect("v.X == 2", d, "T", "embedded")
+		expect("v.A == 1", d, "E", "embedded")
+		expect("p.C09Base.A == 3", d, "T", "embedded")
+		expect("p.c09Struct.A == 4", d, "E", "embedded")
+		expect("v is empty", d, "E", "embedded")
+		expect("any v as k, x { x == 1 }", d, "E", "embedded")
+	case 8: // many operands (long flat chain under a budget) evaluated on data
+		n := 3000
+		var sb strings.Builder
+		for i := 0; i < n; i++ {
+			if i > 0 {
+				sb.WriteString(" and ")
+			}
+			fmt.Fprintf(&sb, "a != %d", i+10)
+		}
+		expect(sb.String(), map[string]interface{}{"a": 5}, "T", "long-chain")
+		expect(sb.String()+" and zz == 1", map[string]interface{}{"a": 5}, "E", "long-chain")
+		expect(strings.ReplaceAll(sb.String(), " and ", " or ")+" or a == 1", map[string]interface{}{"a": 5}, "T", "long-chain")
+	}
+}
+
+func bexprBudget() bexpr.Option { return bexpr.WithMaxExpressions(1 << 24) }
+
 func init() {
 	mon.Register(&mon.Prop{
 		ID: "C09", Level: "exploration",
-		Rule:        "exhaustive matrix: a zoo with a value of every reflect.Kind (Invalid/nil included) and the odd shapes (nil/odd elements in containers, non-string and named-string keyed maps, NaN keys, multi-level / nil / self-referential pointers, cyclic map/slice/struct, hostile json.Number) x 8 holders (map, tagged struct, *map, []interface{}, nested map, map[string]T, []T, the datum itself) x ~270 expressions (8 operators x 13 literal classes x path shapes, not/and/or, quantifiers in every binding mode); then the seeded C01 workload incl. the reference's unspecified cases. oracle: recover() sees no panic, the process does not die, err != nil implies result == false. non-trivial = the expression parsed and was evaluated; distinct by (operator, zoo entry@holder, expression)",
+		Rule:        "exhaustive matrix: a zoo with a value of every reflect.Kind (Invalid/nil included) and the odd shapes (nil/odd elements in containers, non-string and named-string keyed maps, NaN keys, multi-level / nil / self-referential pointers, cyclic map/slice/struct, hostile json.Number) x 8 holders (map, tagged struct, *map, []interface{}, nested map, map[string]T, []T, the datum itself) x ~270 expressions (8 operators x 13 literal classes x path shapes, not/and/or, quantifiers in every binding mode); 9 stress cases (2*10^4 | 3*10^5-element lists and maps, 10^5 | 1.5*10^6-byte strings, 300 | 3000-level nesting with paths of that length, 6-fold nested quantifiers over 96 leaves, embedded structs, 3000-operand chains) whose outcomes are known by construction; then the seeded C01 workload incl. the reference's unspecified cases. oracle: recover() sees no panic, the process does not die, err != nil implies result == false. non-trivial = the expression parsed and was evaluated; distinct by (operator, zoo entry@holder, expression)",
 		Assumptions: []string{"recursive pointer TYPES (type T *T; p = &p) are excluded: pointerstructure's own dereference loop never ends on them, which could only ever be inconclusive here"},
-		NumCases:    func(tier string) int { return len(c09Zoo()) + tierN(tier, 15000, 400000) },
+		NumCases:    func(tier string) int { return len(c09Zoo()) + c09NStress + tierN(tier, 15000, 400000) },
 		Run:         c09Run,
 		Chunk: func(tier string, n int) int {
 			if tier == "thorough" {
@@ -254,7 +393,7 @@ func init() {
 			return 300
 		},
 		Required: func(tier string) []string {
-			l := []string{"zoo_entries", "random_evaluations", "outcome:T", "outcome:F", "outcome:E", "random_unspecified_covered"}
+			l := []string{"zoo_entries", "stress:big-list", "stress:big-iface-list", "stress:big-map", "stress:long-string", "stress:deep-maps", "stress:deep-lists-and-pointers", "stress:nested-quantifiers", "stress:embedded", "stress:long-chain", "random_evaluations", "outcome:T", "outcome:F", "outcome:E", "random_unspecified_covered"}
 			for _, op := range append(append([]string{}, c01Ops...), "not", "quantifier", "connective") {
 				for _, z := range []string{"nil", "int", "chan", "func", "complex128", "struct", "slice-iface-mixed", "slice-ptr-nil", "slice-ptrptr", "map-int-key", "map-named-key", "nilptr", "cyclic-map", "unsafe.Pointer"} {
 					l = append(l, "cell:"+op+"/"+z+"@map")
